@@ -11,6 +11,12 @@ def optRatJ : Option Rat → Json
   | none => .null
 
 def handle (j : Json) : Except String Json := do
+  if let .ok bj := j.getObjVal? "bounds" then
+    -- the boxes LocalScipyMinimizer hands to scipy, in the order of p0
+    let names ← jList jStr (← field bj "names")
+    let given ← jAssoc (jPair jRat jRat) (← field bj "given")
+    let boxes := fillBounds Gen.defaultBox given names
+    return .arr (boxes.map fun b => Json.arr #[ratJ b.1, ratJ b.2]).toArray
   match j.getObjVal? "fit" with
   | .ok fj =>
     -- the wrapper chain fit.* -> LocalScipyMinimizer.__call__ on a recorded scipy result
